@@ -16,7 +16,10 @@ for d in sorted(glob.glob(os.path.join(V, "seeded", "*"))):
     rp = os.path.join(d, "result.json")
     if not os.path.exists(rp):
         continue
-    r = json.load(open(rp))
+    try:
+        r = json.load(open(rp))
+    except Exception:      # a run that is still in progress
+        continue
     readme = open(os.path.join(d, "README.md")).read() if os.path.exists(os.path.join(d, "README.md")) else ""
     title = readme.splitlines()[0].lstrip("# ").strip() if readme else ""
     files = re.findall(r"^\+\+\+ b/(\S+)", open(os.path.join(d, "patch.diff")).read(), re.M)
